@@ -309,6 +309,8 @@ type c04Op struct {
 	Fail int     `json:"fail"`
 	Size uint64  `json:"size"`
 	Off  int     `json:"off"`
+	Lvl  int     `json:"lvl"`
+	Bits []int   `json:"bits"`
 }
 
 func c04Flags(bitsl []int) PageTableEntryFlag {
@@ -353,6 +355,35 @@ func (m *c04Machine) do(o c04Op) {
 		}
 		e["res"], e["pa"] = res, c04W(uint64(pa))
 		m.emit(e)
+		return
+	}
+	if o.Op == "poke" {
+		// the environment (CPU setting accessed/dirty, boot loader setting global/NX/cache bits) ORs flag bits into
+		// the recursive entry of space o.Pdt (lvl 0) or into the present level-lvl entry on the way to page o.Pg
+		hit := false
+		if o.Pdt >= 1 && o.Pdt <= len(m.roots) {
+			table, ok := m.roots[o.Pdt-1], true
+			idx := uintptr(511)
+			if o.Lvl > 0 {
+				va := o.Pg.addr()
+				for l := 1; l <= o.Lvl && ok; l++ {
+					idx = (va >> (39 - 9*uint(l-1))) & 511
+					if l < o.Lvl {
+						e := *(*uintptr)(unsafe.Pointer(table + idx*8))
+						table = e & c04AddrMask
+						ok = e&1 != 0 && m.inPool(table)
+					}
+				}
+			}
+			if ok && o.Lvl < 4 {
+				pe := (*uintptr)(unsafe.Pointer(table + idx*8))
+				if *pe&1 != 0 {
+					*pe |= uintptr(c04Flags(o.Bits))
+					hit = true
+				}
+			}
+		}
+		m.emit(c04Ev{"k": "poke", "pdt": o.Pdt, "pg": o.Pg, "lvl": o.Lvl, "bits": o.Bits, "hit": hit, "proj": m.proj()})
 		return
 	}
 	if o.Op == "switch" {
@@ -600,6 +631,23 @@ func TestVerifC04Random(t *testing.T) {
 			via := "pdt"
 			if pdt == m.activeID() && rng.Intn(2) == 0 {
 				via = "fn"
+			}
+			if rng.Intn(8) == 0 {
+				// environment: extra bits (user, PWT, PCD, accessed, dirty, global, NX) on a recursive entry or an upper-level entry
+				pb := []int{}
+				for _, b := range []int{2, 3, 4, 5, 6, 8, 63} {
+					if rng.Intn(3) == 0 {
+						pb = append(pb, b)
+					}
+				}
+				if len(pb) == 0 {
+					pb = []int{5}
+				}
+				if rng.Intn(2) == 0 {
+					m.do(c04Op{Op: "poke", Pdt: m.activeID(), Lvl: 0, Bits: pb})
+				} else {
+					m.do(c04Op{Op: "poke", Pdt: pdt, Pg: pg, Lvl: rng.Intn(4), Bits: pb})
+				}
 			}
 			switch k := rng.Intn(20); {
 			case k < 7:
